@@ -197,8 +197,12 @@ pub fn parse<T: AsRef<Path>>(path: T) -> Result<Tbl, Error> {
     // Datos de elementos
     let mut elements: BTreeMap<String, Element> = BTreeMap::new();
     let mut idxelem: i32 = 0;
-    while let Some(line) = lines.next() {
-        let name = line.trim_matches('"').trim();
+    while idxelem < numelements {
+        let line = match lines.next() {
+            Some(line) => line,
+            None => break,
+        };
+        let name = line.trim().trim_matches('"').trim();
         let values = lines.next()
             .ok_or_else(|| format_err!("Error al leer el archivo .tbl: no se ha encontrado la línea de propiedades del elemento {}", name))?;
         let element = (name.to_owned() + " " + values)
@@ -211,16 +215,17 @@ pub fn parse<T: AsRef<Path>>(path: T) -> Result<Tbl, Error> {
             })?;
         elements.insert(name.to_string(), element);
         idxelem += 1;
-        if idxelem == numelements {
-            break;
-        };
     }
 
     // Datos de espacios
     let mut spaces: BTreeMap<String, Space> = BTreeMap::new();
     let mut idxspc: i32 = 0;
-    while let Some(line) = lines.next() {
-        let name = line.trim_matches('"');
+    while idxspc < numspaces {
+        let line = match lines.next() {
+            Some(line) => line,
+            None => break,
+        };
+        let name = line.trim().trim_matches('"');
         let values = lines.next().ok_or_else(|| {
             format_err!(
                 "Error al leer el archivo .tbl: no se ha encontrado la línea de propiedades del espacio {}",
@@ -237,9 +242,6 @@ pub fn parse<T: AsRef<Path>>(path: T) -> Result<Tbl, Error> {
             })?;
         spaces.insert(name.to_string(), space);
         idxspc += 1;
-        if idxspc == numspaces {
-            break;
-        };
     }
 
     Ok(Tbl { elements, spaces })
